@@ -135,6 +135,14 @@ def _block(block, agg):
     lang, n, alphabet, first = block
     lexer = lexer_for(lang)
     if first == "LONG":
+        # one very long line (a minified bundle, a generated table): columns beyond 2**16
+        unit = "v = f(1, 2); "
+        wide = unit * (70_000 // len(unit)) + "\nw = 2\n"
+        for fc in (False, True):
+            cnt, viol = eval_text(lang, lexer, wide, fc)
+            agg.case({"language": lang, "wide_line": len(wide), "filter_comments": fc}, True, "wide", sample=False)
+            for k, sig, d in viol:
+                agg.violation(k, dict(sig, family="very-long-line"), {"language": lang, "long": [0, n]}, d)
         for length in (2048, 3000, 4096):
             gen = long_texts(length, n)
             while True:
